@@ -110,6 +110,24 @@ func c17Reader(b []byte, mode int) io.Reader {
 	return bytes.NewReader(b)
 }
 
+// c17ReadMode reads a chain through the reader of the given mode.  Mode 3: the bytes are handed over in a
+// *bytes.Buffer whose storage the caller reuses right after the call (Reset + other content of the same
+// length, as a server recycling one scratch buffer does): what ReadCertChain returned must not change.
+func c17ReadMode(b []byte, mode int) (certurl.CertChain, error, interface{}) {
+	if mode != 3 {
+		return c17Read(c17Reader(b, mode))
+	}
+	store := append([]byte{}, b...)
+	buf := bytes.NewBuffer(store)
+	ch, err, pan := c17Read(buf)
+	buf.Reset()
+	buf.Write(bytes.Repeat([]byte{0xEE}, len(b)))
+	for i := range store {
+		store[i] = 0xEE
+	}
+	return ch, err, pan
+}
+
 // c17ShortReader never fills the caller's buffer when more than one byte is asked
 // for: requests of up to 16 bytes (CBOR heads and their 1/2/4/8 follow bytes) get
 // exactly one byte, larger ones (string bodies) get at most half of the request,
@@ -140,7 +158,7 @@ func (r *c17ShortReader) Read(p []byte) (int, error) {
 	return k, nil
 }
 
-var c17ReaderNames = []string{"bytes.Reader", "short-reads", "data+EOF"}
+var c17ReaderNames = []string{"bytes.Reader", "short-reads", "data+EOF", "bytes.Buffer reused by the caller afterwards"}
 
 func c17Write(ch certurl.CertChain, w io.Writer) (err error, pan interface{}) {
 	defer func() {
@@ -320,7 +338,7 @@ func c17CheckChain(c *mc.Ctx, hname, desc string, entries []refcert.Entry, chain
 		c.Fail(key+":ref-read", "the reference strict reader does not return the written triples from Write's output", desc, "same triples", fmt.Sprintf("err=%v entries=%d", perr, len(back)))
 		return
 	}
-	got, err, pan := c17Read(c17Reader(out.Bytes(), mode))
+	got, err, pan := c17ReadMode(out.Bytes(), mode)
 	c.Transitions(1)
 	if pan != nil {
 		c.Outcome("ReadCertChain panicked")
@@ -812,7 +830,7 @@ func init() {
 				chain = append(chain, &certurl.AugmentedCertificate{Cert: ct.cert, OCSPResponse: e.OCSP, SCTList: e.SCT})
 			}
 			desc := c17DescribeEntries(names, entries)
-			c17CheckChain(c, "C17/roundtrip", desc, entries, chain, func() int { return c.Dev(3, "reader") })
+			c17CheckChain(c, "C17/roundtrip", desc, entries, chain, func() int { return c.Dev(4, "reader") })
 		},
 	}
 
@@ -1158,7 +1176,7 @@ func init() {
 	register(&mc.Property{
 		ID:    "C17",
 		Level: "model_checking",
-		Rule:  "choice-tree enumeration. C17/roundtrip: chain length 1..3 x first certificate (5; later positions rotate through the pool so all are distinct) x ocsp and sct independently absent/present at every position (all 4^n patterns, legal and illegal) x length of every present blob from {256 (default),0,1,23,24,255,65535,65536} x reader {bytes.Reader (default), short reads (1 byte for requests <=16 bytes, at most half of larger requests), data together with EOF} (only drawn for legal chains); lengths and reader are deviations: quick explores every vector with <=2 deviations, thorough bound 7 = the full product. C17/histories: legal chains of 1..2 certificates (first certificate 2 quick / 5 thorough, ocsp and optional sct lengths from {1,24} quick / {1,24,256} thorough) written and read back after an earlier operation in the same process: a Write of the same chain to a destination failing at every byte position k in [0,len] (refusing or short write), a Write of another chain failing at every k, a successful Write of another chain, a ReadCertChain of another chain truncated at every length, a successful Write of a chain over the same certificate objects with other ocsp/sct bytes, or a successful Write of the same chain object followed by an in-place change of its ocsp/sct bytes. C17/certs: every ordered selection with repetition of 0..3 of 5 fixture certificates x all presence patterns, literal or NewCertChain. C17/hostile: 11 kinds of reference-built inputs (all 9^n absent/empty/non-empty presence patterns, missing cert x5, zero certificates x3, unknown keys 5x6, wrong magic x7, shapes/truncations x7, all key orders, duplicate keys x5, trailing bytes x3, head forms x9, value types x7) at every position of chains of 1..3. C17/sct: every list of 0..3 elements with sizes from {0,1,2,65531,65532,65533,65534,65535,65536}. A case is non-trivial when a verdict was demanded of the implementation: a legal chain whose output was compared byte-for-byte with the reference and read back (distinct by chain description and reader), an illegal chain or must-refuse input whose refusal was checked, a must-accept input, every SCT list; hostile inputs that are only recorded are not counted.",
+		Rule:  "choice-tree enumeration. C17/roundtrip: chain length 1..3 x first certificate (5; later positions rotate through the pool so all are distinct) x ocsp and sct independently absent/present at every position (all 4^n patterns, legal and illegal) x length of every present blob from {256 (default),0,1,23,24,255,65535,65536} x reader {bytes.Reader (default), short reads (1 byte for requests <=16 bytes, at most half of larger requests), data together with EOF, a *bytes.Buffer whose storage the caller overwrites right after the call} (only drawn for legal chains); lengths and reader are deviations: quick explores every vector with <=2 deviations, thorough bound 7 = the full product. C17/histories: legal chains of 1..2 certificates (first certificate 2 quick / 5 thorough, ocsp and optional sct lengths from {1,24} quick / {1,24,256} thorough) written and read back after an earlier operation in the same process: a Write of the same chain to a destination failing at every byte position k in [0,len] (refusing or short write), a Write of another chain failing at every k, a successful Write of another chain, a ReadCertChain of another chain truncated at every length, a successful Write of a chain over the same certificate objects with other ocsp/sct bytes, or a successful Write of the same chain object followed by an in-place change of its ocsp/sct bytes. C17/certs: every ordered selection with repetition of 0..3 of 5 fixture certificates x all presence patterns, literal or NewCertChain. C17/hostile: 11 kinds of reference-built inputs (all 9^n absent/empty/non-empty presence patterns, missing cert x5, zero certificates x3, unknown keys 5x6, wrong magic x7, shapes/truncations x7, all key orders, duplicate keys x5, trailing bytes x3, head forms x9, value types x7) at every position of chains of 1..3. C17/sct: every list of 0..3 elements with sizes from {0,1,2,65531,65532,65533,65534,65535,65536}. A case is non-trivial when a verdict was demanded of the implementation: a legal chain whose output was compared byte-for-byte with the reference and read back (distinct by chain description and reader), an illegal chain or must-refuse input whose refusal was checked, a must-accept input, every SCT list; hostile inputs that are only recorded are not counted.",
 		Assumptions: []string{
 			"refcert/refcbor (independent cert-chain+cbor serializer and strict reader, RFC 6962 vector codec) are correct",
 			"blob content is irrelevant to structure (one seeded pattern per run); blob lengths between the enumerated boundary values behave like their neighbours in the same CBOR head class",
